@@ -13,7 +13,8 @@
    [chunks_ok] is the contract (concatenation of a line's chunks = munge of the line; no empty chunk).
    Theorems that need the contract say so; the others hold for ARBITRARY chunk lists. *)
 From Coq Require Import ZArith NArith List Bool.
-From SL Require Import PyInt Widget TextWrap proofs.TextWrapProofs proofs.TextWrapRender.
+From SL Require Import PyInt Widget TextWrap TextWrite proofs.WidgetProofs proofs.TextWrapProofs proofs.TextWrapRender
+  proofs.TextWrapWrite.
 Import ListNotations.
 
 (* ---- vocabulary (defined in proofs/, restated here; each restatement is checked by reflexivity) ---- *)
@@ -166,6 +167,157 @@ Example C11_example :
   render_text (simple_text [32]%N) 3 = ROk [].
 Proof. vm_compute. repeat split. Qed.
 
+(* ==== 9. Widget.write(text, row, col, width, block, wordwrap=True) on ANY widget state =========================
+   Model: TextWrite.write_wrapped b cur maxw t row col width block, the widget being (buffer b, cursor cur,
+   max_width maxw); row / col = None means "not given: take it from the cursor" -- an explicit 0 is 0;
+   width None is defaulted to max_width - col when max_width is truthy ([eff_width]).
+   [cell b i j] (proofs/WidgetProofs.v) is the character at row i, column j, None when there is no such cell. *)
+Remark C11_def_wrapped_lines t w :              (* the greedy wrap of every source line, "" for one that wraps to nothing *)
+  wrapped_lines t w = concat (map (fun cs => or_blank (wrap_chunks' cs w)) (t_chunks t)).
+Proof. reflexivity. Qed.
+Remark C11_def_line_start col block k :         (* first line at col, the others at col (block) or at column 0 *)
+  line_start col block k = match k with O => col | S _ => if block then col else 0 end.
+Proof. reflexivity. Qed.
+Remark C11_def_covered L row col block i j :    (* cell (i, j) receives a character of line k *)
+  covered L row col block i j =
+  exists k l, nth_error L k = Some l /\ i = row + k /\ line_start col block k <= j < line_start col block k + length l.
+Proof. reflexivity. Qed.
+Remark C11_def_opt_or o d : opt_or o d = match o with Some v => v | None => d end.
+Proof. reflexivity. Qed.
+Remark C11_def_eff_width maxw col width :
+  eff_width maxw col width =
+  match width with
+  | Some w => Some w
+  | None => match maxw with Some m => if (m =? 0)%Z then None else Some (m - Z.of_nat col)%Z | None => None end
+  end.
+Proof. reflexivity. Qed.
+
+(* TextWidget.render is the special case: empty buffer, cursor (0, 0), row and col not given, not block *)
+Theorem C11_render_is_write : forall t w maxw,
+  render_text t w = rres_of_wres (write_wrapped [] (0, 0) maxw t None None (Some w) false).
+Proof. exact render_text_is_write. Qed.
+
+(* the text typed is '\n'.join of the wrapped lines, from (row, col), without a width: a function of the GIVEN
+   row / col (cursor only when not given), never of anything else in the widget *)
+Theorem C11_write_is_typing_the_wrap : forall b cur maxw t row col width block w,
+  t_text t <> [] -> eff_width maxw (opt_or col (snd cur)) width = Some w -> (1 <= w)%Z ->
+  write_wrapped b cur maxw t row col width block =
+  WOk (fst (typewriter (join_nl (wrapped_lines t (Z.to_nat w))) b (opt_or row (fst cur)) (opt_or col (snd cur))
+                       (opt_or col (snd cur)) None block))
+      (snd (typewriter (join_nl (wrapped_lines t (Z.to_nat w))) b (opt_or row (fst cur)) (opt_or col (snd cur))
+                       (opt_or col (snd cur)) None block)).
+Proof. exact write_wrapped_ok. Qed.
+
+(* every wrapped line is at most w long (they are the lines of C11_line_structure / C11_greedy) *)
+Theorem C11_write_lines_width : forall t w,
+  (1 <= w)%Z -> Forall (fun l => (Z.of_nat (length l) <= w)%Z) (wrapped_lines t (Z.to_nat w)).
+Proof. exact wrapped_lines_width_z. Qed.
+
+(* line k of the wrap is found at row + k, from column line_start col block k on *)
+Theorem C11_write_lines_placed : forall b cur maxw t row col width block w b' cur',
+  t_text t <> [] -> chunks_ok t = true ->
+  eff_width maxw (opt_or col (snd cur)) width = Some w -> (1 <= w)%Z ->
+  write_wrapped b cur maxw t row col width block = WOk b' cur' ->
+  forall k l j ch,
+    nth_error (wrapped_lines t (Z.to_nat w)) k = Some l -> nth_error l j = Some ch ->
+    cell b' (opt_or row (fst cur) + k) (line_start (opt_or col (snd cur)) block k + j) = Some ch.
+Proof. exact placed_written. Qed.
+
+(* every other cell of the buffer keeps its character *)
+Theorem C11_write_other_cells_kept : forall b cur maxw t row col width block w b' cur',
+  t_text t <> [] -> chunks_ok t = true ->
+  eff_width maxw (opt_or col (snd cur)) width = Some w -> (1 <= w)%Z ->
+  write_wrapped b cur maxw t row col width block = WOk b' cur' ->
+  forall i j v,
+    cell b i j = Some v ->
+    ~ covered (wrapped_lines t (Z.to_nat w)) (opt_or row (fst cur)) (opt_or col (snd cur)) block i j ->
+    cell b' i j = Some v.
+Proof. exact placed_kept. Qed.
+
+(* a cell that did not exist becomes a blank iff it lies left of a written cell of its row ... *)
+Theorem C11_write_padding : forall b cur maxw t row col width block w b' cur',
+  t_text t <> [] -> chunks_ok t = true ->
+  eff_width maxw (opt_or col (snd cur)) width = Some w -> (1 <= w)%Z ->
+  write_wrapped b cur maxw t row col width block = WOk b' cur' ->
+  forall i j j',
+    cell b i j = None ->
+    ~ covered (wrapped_lines t (Z.to_nat w)) (opt_or row (fst cur)) (opt_or col (snd cur)) block i j ->
+    covered (wrapped_lines t (Z.to_nat w)) (opt_or row (fst cur)) (opt_or col (snd cur)) block i j' -> j < j' ->
+    cell b' i j = Some SP.
+Proof. exact placed_padding. Qed.
+
+(* ... and still does not exist otherwise *)
+Theorem C11_write_no_other_cell : forall b cur maxw t row col width block w b' cur',
+  t_text t <> [] -> chunks_ok t = true ->
+  eff_width maxw (opt_or col (snd cur)) width = Some w -> (1 <= w)%Z ->
+  write_wrapped b cur maxw t row col width block = WOk b' cur' ->
+  forall i j,
+    cell b i j = None ->
+    ~ covered (wrapped_lines t (Z.to_nat w)) (opt_or row (fst cur)) (opt_or col (snd cur)) block i j ->
+    (forall j', covered (wrapped_lines t (Z.to_nat w)) (opt_or row (fst cur)) (opt_or col (snd cur)) block i j' -> j' < j) ->
+    cell b' i j = None.
+Proof. exact placed_absent. Qed.
+
+(* number of rows afterwards: rows row .. row + #lines - 1 exist; nothing is created when the wrap is one empty line *)
+Theorem C11_write_height : forall b cur maxw t row col width block w b' cur',
+  t_text t <> [] -> chunks_ok t = true ->
+  eff_width maxw (opt_or col (snd cur)) width = Some w -> (1 <= w)%Z ->
+  write_wrapped b cur maxw t row col width block = WOk b' cur' ->
+  length b' = Nat.max (length b)
+                (match wrapped_lines t (Z.to_nat w) with
+                 | [[]] => 0
+                 | _ => opt_or row (fst cur) + length (wrapped_lines t (Z.to_nat w))
+                 end).
+Proof. exact placed_height. Qed.
+
+(* the cursor is left right behind the last line *)
+Theorem C11_write_cursor : forall b cur maxw t row col width block w b' cur',
+  t_text t <> [] -> chunks_ok t = true ->
+  eff_width maxw (opt_or col (snd cur)) width = Some w -> (1 <= w)%Z ->
+  write_wrapped b cur maxw t row col width block = WOk b' cur' ->
+  cur' = (opt_or row (fst cur) + (length (wrapped_lines t (Z.to_nat w)) - 1),
+          line_start (opt_or col (snd cur)) block (length (wrapped_lines t (Z.to_nat w)) - 1)
+          + length (last (wrapped_lines t (Z.to_nat w)) [])).
+Proof. exact placed_cursor. Qed.
+
+(* the other outcomes: nothing for the empty text; ValueError for a width <= 0 (given, or max_width - col);
+   TypeError when there is no width at all; the model never runs out of fuel *)
+Theorem C11_write_empty_text : forall b cur maxw t row col width block,
+  t_text t = [] -> write_wrapped b cur maxw t row col width block = WOk b cur.
+Proof. exact write_wrapped_empty. Qed.
+
+Theorem C11_write_nonpositive_width : forall b cur maxw t row col width block w,
+  t_text t <> [] -> eff_width maxw (opt_or col (snd cur)) width = Some w -> (w <= 0)%Z ->
+  write_wrapped b cur maxw t row col width block = WValueError.
+Proof. exact write_wrapped_nonpositive. Qed.
+
+Theorem C11_write_no_width : forall b cur maxw t row col width block,
+  t_text t <> [] -> eff_width maxw (opt_or col (snd cur)) width = None ->
+  write_wrapped b cur maxw t row col width block = WTypeError.
+Proof. exact write_wrapped_no_width. Qed.
+
+Theorem C11_write_never_out_of_model : forall b cur maxw t row col width block,
+  write_wrapped b cur maxw t row col width block <> WOutOfModel.
+Proof. exact write_wrapped_never_out_of_model. Qed.
+
+(* a heading "H" (cursor left at (0, 1)), then "alpha beta" word-wrapped at width 7:
+   row 1 / col 0 given; col not given (taken from the cursor: 1); nothing given; block mode at col 2; " " at (3, 2) *)
+Example C11_write_example :
+  let ab := simple_text [97; 108; 112; 104; 97; 32; 98; 101; 116; 97]%N in
+  write_wrapped [[72]]%N (0, 1) None ab (Some 1) (Some 0) (Some 7%Z) false
+    = WOk [[72]; [97; 108; 112; 104; 97]; [98; 101; 116; 97]]%N (2, 4) /\
+  write_wrapped [[72]]%N (0, 1) None ab (Some 1) None (Some 7%Z) false
+    = WOk [[72]; [32; 97; 108; 112; 104; 97]; [98; 101; 116; 97]]%N (2, 4) /\
+  write_wrapped [[72]]%N (0, 1) None ab None None (Some 7%Z) false
+    = WOk [[72; 97; 108; 112; 104; 97]; [98; 101; 116; 97]]%N (1, 4) /\
+  write_wrapped [[72]]%N (0, 1) None ab (Some 1) (Some 2) (Some 7%Z) true
+    = WOk [[72]; [32; 32; 97; 108; 112; 104; 97]; [32; 32; 98; 101; 116; 97]]%N (2, 6) /\
+  write_wrapped [[72]]%N (0, 1) None (simple_text [32]%N) (Some 3) (Some 2) (Some 7%Z) false = WOk [[72]]%N (3, 2) /\
+  write_wrapped [[72]]%N (0, 1) None ab None None None false = WTypeError /\
+  write_wrapped [[72; 120; 121; 122]]%N (0, 4) (Some 3%Z) ab None None None false = WValueError.
+Proof. vm_compute. repeat split. Qed.
+
+
 (* the defect repaired by commit 628ec11 (F3), on the model of the old code: "abcd\nef" at width 4 *)
 Example C11_legacy_refuted :
   legacy_render_text (simple_text [97; 98; 99; 100; 10; 101; 102]%N) 4 = [[97; 98; 99; 100]; []; [101; 102]]%N /\
@@ -190,3 +342,16 @@ Print Assumptions C11_long_words_split.
 Print Assumptions C11_nonpositive_width_rejected.
 Print Assumptions C11_empty_text.
 Print Assumptions C11_simple_text_ok.
+Print Assumptions C11_render_is_write.
+Print Assumptions C11_write_is_typing_the_wrap.
+Print Assumptions C11_write_lines_width.
+Print Assumptions C11_write_lines_placed.
+Print Assumptions C11_write_other_cells_kept.
+Print Assumptions C11_write_padding.
+Print Assumptions C11_write_no_other_cell.
+Print Assumptions C11_write_height.
+Print Assumptions C11_write_cursor.
+Print Assumptions C11_write_empty_text.
+Print Assumptions C11_write_nonpositive_width.
+Print Assumptions C11_write_no_width.
+Print Assumptions C11_write_never_out_of_model.
